@@ -89,6 +89,16 @@ def matchFrom (t : Regex.RNode) (line : Bytes) (icase : Bool) (from_ : Nat) : Op
     | [] => none
     | r :: _ => some (i, r.1, r.2))
 
+/-- the same question put to the *suffix* of the line from `from_` on, told only "not at the beginning of the line"
+    (what `ec_substitute` does from the second round on): `\<`, `\>` do not see the character before the suffix -/
+def matchFromSuffix (t : Regex.RNode) (line : Bytes) (icase : Bool) (from_ : Nat) : Option (Nat × Nat × Regex.Marks) :=
+  let suf := line.drop from_
+  let env : RegexSem.Env := ⟨suf, refFlags icase (from_ > 0)⟩
+  (RegexSem.starts suf (suf.length + 2) 0).findSome? (fun i =>
+    match RegexSem.results env t (i, List.replicate 128 (-1)) with
+    | [] => none
+    | r :: _ => some (i + from_, r.1 + from_, r.2.map (fun m => if m ≥ 0 then m + (from_ : Int) else m)))
+
 def lineMatches (pat : Bytes) (line : Bytes) (icase : Bool) : Option Bool :=
   (refTree pat).map (fun t => (matchFrom t line icase 0).isSome)
 
@@ -368,11 +378,11 @@ def expandRep (rep line : Bytes) (marks : Regex.Marks) : Bytes :=
   go (rep.length + 1) rep []
 
 /-- the reference scan of one line -/
-def substRef (t : Regex.RNode) (rep : Bytes) (g icase : Bool) (line : Bytes) : Bytes :=
+def substRef (t : Regex.RNode) (rep : Bytes) (g icase : Bool) (line : Bytes) (suffix : Bool := false) : Bytes :=
   let rec go : Nat → Nat → Bytes → Bool → Bytes
     | 0, pos, acc, _ => acc ++ line.drop pos
     | f + 1, pos, acc, any =>
-      match matchFrom t line icase pos with
+      match (if suffix then matchFromSuffix t line icase pos else matchFrom t line icase pos) with
       | none => acc ++ line.drop pos
       | some (so, eo, marks) =>
         let acc := acc ++ (line.drop pos).take (so - pos) ++ expandRep rep line marks
@@ -421,8 +431,11 @@ def judge14Step (prev next : Step) (ln : Bytes) (icase : Bool) (_lastPat : Bytes
       let want := ((List.range ls.length).map (fun i =>
         let l := ls.getD i []
         if b ≤ (i : Int) && (i : Int) ≤ e then substRef t rep g icase l else l)).flatten
+      let wantSuffix := ((List.range ls.length).map (fun i =>
+        let l := ls.getD i []
+        if b ≤ (i : Int) && (i : Int) ≤ e then substRef t rep g icase l true else l)).flatten
       let errs :=
-        (if next.text == want then [] else [s!"clause=subst_line_spec cmd={str ln} line={bytesHex prev.text} want={bytesHex want} got={bytesHex next.text}"])
+        (if next.text == want then [] else [s!"clause=subst_line_spec cause={if next.text == wantSuffix then "match_judged_on_suffix" else "other"} cmd={str ln} line={bytesHex prev.text} want={bytesHex want} got={bytesHex next.text}"])
         ++ (if Drive.hexNat "0" == none then [] else [])
       (errs, pat')
     | _, _ => ([], pat')
